@@ -42,6 +42,7 @@ var candidatePoints = []string{"a", "ab", "b", "a/b", "a/b/c", "ab/a"}
 // world: a mount.FS with its constituents. parts[0] is the root FS, parts[i+1] the FS mounted at points[i].
 type world struct {
 	mfs    *mount.FS
+	top    hackpadfs.FS // where operations enter: mfs, or an outer mount.FS whose root is mfs
 	parts  []hackpadfs.FS
 	points []string
 }
@@ -156,6 +157,9 @@ func errPaths(err error) []string {
 // Header is the first replay step.
 type Header struct {
 	Points []string `json:"points"`
+	// Stacked: the mount.FS is itself the root of a second, mount-less mount.FS and every operation enters through that
+	// outer layer: the helpers' MountFS delegation must keep dispatching (not fall back to the generic walk) layer by layer.
+	Stacked bool `json:"stacked,omitempty"`
 }
 
 type machine struct {
@@ -164,7 +168,16 @@ type machine struct {
 }
 
 func newMachine(h Header) *machine {
-	return &machine{w1: buildWorld(h.Points), w2: buildWorld(h.Points)}
+	m := &machine{w1: buildWorld(h.Points), w2: buildWorld(h.Points)}
+	for _, w := range []*world{m.w1, m.w2} {
+		w.top = w.mfs
+		if h.Stacked {
+			outer, err := mount.NewFS(w.mfs)
+			must(err)
+			w.top = outer
+		}
+	}
+	return m
 }
 
 func compareRes(base string, op ops.Op, r1, r2 ops.Res, point1, point2 string) (string, string) {
@@ -222,7 +235,7 @@ func (m *machine) step(op ops.Op) (string, string) {
 	if i1 != 0 || len(m.w1.points) > 0 && strings.Contains(op.P, "/") {
 		// counted below through the prefix rule
 	}
-	r1 := ops.ApplyFS(m.w1.mfs, op)
+	r1 := ops.ApplyFS(m.w1.top, op)
 	if op.K == "rename" {
 		i2, rest2 := m.w1.route(op.P2)
 		if i1 != i2 {
@@ -333,8 +346,11 @@ func prefixRelated(points []string) bool {
 
 func run(t *testing.T) {
 	vf.Check(t, "route", func(rt *rapid.T, rec *vf.Rec) {
-		h := Header{Points: genPoints(rt)}
+		h := Header{Points: genPoints(rt), Stacked: rapid.IntRange(0, 3).Draw(rt, "stacked") == 0}
 		rec.Step(h)
+		if h.Stacked {
+			rec.Class("stacked-mount-layers")
+		}
 		rec.Class(fmt.Sprintf("points:%d", len(h.Points)))
 		m := newMachine(h)
 		related := prefixRelated(h.Points)
@@ -343,7 +359,7 @@ func run(t *testing.T) {
 		}
 		rt.Repeat(map[string]func(*rapid.T){
 			"step": func(rt *rapid.T) {
-				snap, _ := ops.SnapFS(m.w1.mfs)
+				snap, _ := ops.SnapFS(m.w1.top)
 				if snap == nil {
 					snap = ops.Snap{".": ops.Node{Kind: 'd'}}
 				}
